@@ -89,7 +89,8 @@ CHECKS["C16"] = dict(
         "failure leaves no text behind and that a failing chain tells one story; tied by driver stream `flow` to addrxlat_sys_os_init on generated images "
         "(every architecture; get_page failing with each status class at each page read, every symbol look-up refused in turn) and to register / Xen "
         "version attribute calls on generated dumps (blob cleared, replaced, too short; crash note pointing to readable, absent, truncated memory)."
-        "Round 4: message flag across do_op alternatives (Kdf.Model.SysMsg, Kdf.Props.C16Hist: op_success_clean, op_failure_msg, ...), 64-bit size fields reaching an allocation (ErrFlow.ctxMalloc, s390OsInfoAlloc), histories on one addrxlat context (tolerated set-up failure, then non-present walks; implementation only).",
+        "Round 4: message flag across do_op alternatives (Kdf.Model.SysMsg, Kdf.Props.C16Hist: op_success_clean, op_failure_msg, ...), 64-bit size fields reaching an allocation (ErrFlow.ctxMalloc, s390OsInfoAlloc), histories on one addrxlat context (tolerated set-up failure, then non-present walks; implementation only)."
+        "Round 5: VMCOREINFO look-ups by name (ErrFlow.vmcoreinfoLookup; vmcoreinfoLookup_disciplined, vmcoreinfoLookup_dot_is_miss, vmcoreinfoLookup_fail_one_link), pages that do not decompress (implementation only).",
    note=TB + "Partial: that each of the ~150 error exits of the library sets a message and that no stale message survives a successful call is proved for "
         "the modelled functions (outcomes of callbacks, reads and allocations are parameters assumed to obey the property) and observed by the monitors "
         "on the other exercised calls (x86_64/ia32 set-up, conversions, good and truncated dumps, failing reads/attribute calls, allocation failures).",
@@ -124,7 +125,8 @@ CHECKS["C19"] = dict(
         "listed frames; both views yield the same page index; allocation failure at any point is reported. Tie: the static functions via #include on index "
         "lists over the whole 2^64 frame space with every realloc failure point, the first-step functions on in-memory tables in both byte orders, and "
         "generated xc_core files (p2m and pfn-only, LE x86_64 and BE s390x) through kdump_read and addrxlat_fulladdr_conv."
-        "Round 4: chains of 2-4 dumps opened on one context (PV and HVM in all orders; model Ctx/openCtx/openAll; reopen_last_dump_only, reopen_mode_of_last, reopen_views_last_only, history_last_only).",
+        "Round 4: chains of 2-4 dumps opened on one context (PV and HVM in all orders; model Ctx/openCtx/openAll; reopen_last_dump_only, reopen_mode_of_last, reopen_views_last_only, history_last_only)."
+        "Round 5: opens with every realloc failing in turn (open_ok_both_complete, open_fails_when_mfn_index_fails, mapEnd_alloc_fails).",
    note=TB + "qsort is modelled by an insertion sort (trusted to sort). Page lists naming a frame twice have no consistent view and are outside the property.",
    technique="Lean 4 proof (run-length index = list index, for all lists) + differential correspondence", design="§6 C19")
 CHECKS["C09"] = dict(
@@ -241,7 +243,8 @@ CHECKS["C13"] = dict(
         "references and sub-references, iterators, clone/free, re-open) on real contexts over global keys, cpu.N, file.set.N and VMCOREINFO-created keys "
         "with hash-bucket-colliding prefix keys, every answer compared with an independent Python dictionary and with the model (iteration order and "
         "persist flags exactly)."
-        "Round 4: file.set.number grown under every allocation failure (numFiles_rollback_sub, numFiles_rollback_no_stale, numFiles_fail_no_stale), lazily revalidated values read first through reference / iterator / path (version_code_follows_release), application-set cpu.number across an open.",
+        "Round 4: file.set.number grown under every allocation failure (numFiles_rollback_sub, numFiles_rollback_no_stale, numFiles_fail_no_stale), lazily revalidated values read first through reference / iterator / path (version_code_follows_release), application-set cpu.number across an open."
+        "Round 5: the legacy alias file.fd (numFilesAlias_one, fileFd_unset_unless_one, clearHooked_clears_alias, clearHooked_frame, setFileFd_alias_set), derived values cleared before their first read.",
    note=TB + "Lookup completeness, path creation, VMCOREINFO parsing, file.set.N, clone_attr_path and open as wholes are observed, not proved. Dynamic keys "
         "created through a clone with a private dictionary are excluded (finding recorded under C15); findings overlay-clone-root, pagemap-clear-deadlock.",
    technique="Lean 4 proof (dictionary laws of the attr.c model) + differential correspondence with an independent dictionary oracle", design="§6 C13")
@@ -257,7 +260,8 @@ CHECKS["C15"] = dict(
         "make_xen_pfn_map_* (xenMapScan), libaddrxlat's read cache (get_cache_buf, cleanup_cache) and addrxlat_ctx_add_cb/del_cb are model "
         "operations with balance theorems (removing ANY record gives back every cached page: ctxDelCb_balanced, axSession_balanced); harness ops "
         "fb/axread/addcb/delcb with slot/MRU state compared after every call; Xen cores with straddling .xen_p2m tables, SADUMP/LKCD/s390 files and "
-        "contexts without a dump joined the API walks.",
+        "contexts without a dump joined the API walks."
+        "Round 5: pins of derived_attr_revalidate on application-edited note blobs (Kdf.Model.BlobPin; derivedRevalidate_balanced, derivedRevalidate_short).",
    note=TB + "That the model's `stuck` result is unreachable (fcache_get_chunk entry-array bound, loop fuel) is not proved (it would show as a trace "
         "difference). Findings recorded: reopen-open-context, realloc-caches-lent, clone-dict-new-attrs.",
    technique="Lean 4 proof (ledger balance of transcribed functions) + trace correspondence + reference-sum/leak monitors", design="§6 C15")
